@@ -289,6 +289,7 @@ func modelPgTypeForOID(e *Exec, c *frame, fn *ssa.Function, a []Value) Value {
 		codec, name string
 	}{
 		{oidText, "TextCodec", "text"}, {oidVarchar, "TextCodec", "varchar"},
+		{1042, "TextCodec", "bpchar"}, {19, "TextCodec", "name"}, {705, "TextCodec", "unknown"},
 		{20, "Int8Codec", "int8"}, {21, "Int2Codec", "int2"}, {23, "Int4Codec", "int4"},
 		{16, "BoolCodec", "bool"}, {17, "ByteaCodec", "bytea"},
 	}
@@ -301,7 +302,7 @@ func modelPgTypeForOID(e *Exec, c *frame, fn *ssa.Function, a []Value) Value {
 	if e.Branch(unknown) {
 		return Tuple{(*Value)(nil), sym.Bool(false)}
 	}
-	e.unsupported("pgtype.Map.TypeForOID model covers text/varchar/int2/int4/int8/bool/bytea and unknown OIDs only")
+	e.unsupported("pgtype.Map.TypeForOID model covers text/varchar/bpchar/name/unknown/int2/int4/int8/bool/bytea and unregistered OIDs only")
 	return nil
 }
 
